@@ -3,7 +3,13 @@ package main
 // Deterministic PRNG (splitmix64); every random choice of every generator derives from one state.
 type Rng struct{ s uint64 }
 
-func NewRng(seed uint64) *Rng { return &Rng{s: seed*0x9E3779B97F4A7C15 + 0x1234567} }
+func NewRng(seed uint64) *Rng {
+	// hash the seed so that consecutive seeds give unrelated streams (a plain offset would only shift the stream)
+	r := &Rng{s: seed ^ 0x5851F42D4C957F2D}
+	a := r.Next()
+	b := r.Next()
+	return &Rng{s: a ^ (b << 1) ^ (seed * 0xD6E8FEB86659FD93)}
+}
 
 func (r *Rng) Next() uint64 {
 	r.s += 0x9E3779B97F4A7C15
